@@ -182,7 +182,7 @@ def check_float_types(idx: Index, rep: Report) -> None:
             kt = unparse(k).split(".")[-1] if k is not None else ""
             if kt in FLOAT_LLVM:
                 n += 1
-                made = {call_attr(c) for c in ast.walk(v) if isinstance(c, ast.Call)} & llvm_float
+                made = ({call_attr(c) for c in ast.walk(v) if isinstance(c, ast.Call)} | {x.attr for x in ast.walk(v) if isinstance(x, ast.Attribute)} | {x.id for x in ast.walk(v) if isinstance(x, ast.Name)}) & llvm_float
                 inst = f"{nm}[{kt}]"
                 if made == {FLOAT_LLVM[kt]}:
                     r.ok(inst, f"{CT}:{k.lineno} {kt} -> ir.{FLOAT_LLVM[kt]}")
@@ -237,11 +237,15 @@ def check(idx: Index, rep: Report, tier: str) -> str:
     for k, v in zip(d.keys, d.values):
         cname = unparse(k).split(".")[-1]
         mn = (_op_name(idx, cname) or "").removeprefix("llvm.")
-        m = re.fullmatch(r"lambda b: b\.(\w+)", unparse(v))
+        # the builder method, however it is named: `lambda b: b.add`, `ir.IRBuilder.add`, `"add"` (looked up with getattr)
+        m = re.fullmatch(r"lambda (\w+): \1\.(\w+)|(?:\w+\.)*IRBuilder\.(\w+)|'(\w+)'|attrgetter\('(\w+)'\)", unparse(v))
+        meth = next((g for g in (m.groups()[1:] if m else ()) if g), None)
         inst = f"_BINARY_OP_MAP[{cname}]"
         n += 1
-        if m and m.group(1).rstrip("_") == mn and mn:
-            r.ok(inst, f"llvm.{mn} -> builder.{m.group(1)}")
+        if meth is None:
+            raise AnalysisError(f"{CO}: how `_BINARY_OP_MAP[{cname}]` = `{unparse(v)[:50]}` names the builder method was not recognised")
+        if meth.rstrip("_") == mn and mn:
+            r.ok(inst, f"llvm.{mn} -> builder.{meth}")
         else:
             r.fail(inst, Finding("C23.R1", "xdsl.backend.llvm.convert_op._BINARY_OP_MAP", f"binary:{cname}", f"llvm.{cname} (`llvm.{mn}`) is translated with `{unparse(v)}`; the builder method must be `{mn}`", f"{CO}:{k.lineno}"))
     d = _dict(idx, CO, "_CAST_OP_NAMES")
